@@ -1,18 +1,34 @@
 package main
 
 import (
+	"encoding/json"
 	"fmt"
+	"os"
 
-	"github.com/go-openapi/swag"
-	"gopkg.in/yaml.v3"
+	"github.com/go-openapi/spec"
+	"github.com/go-openapi/strfmt"
+	"github.com/go-openapi/validate"
+	"github.com/go-swagger/go-swagger/codescan"
 )
 
 func main() {
-	for _, s := range []string{"\nleading newline", ".inf", ".NaN", "<<", "=", "2001-12-14", "block\ntrailing\n"} {
-		b, _ := yaml.Marshal(map[string]interface{}{"k": s})
-		var v map[string]interface{}
-		err := yaml.Unmarshal(b, &v)
-		j, err2 := swag.YAMLToJSON(func() interface{} { var n yaml.Node; _ = yaml.Unmarshal(b, &n); return &n }())
-		fmt.Printf("%q -> %q -> %#v err=%v | swag: %s err=%v\n", s, string(b), v["k"], err, string(j), err2)
+	sw, err := codescan.Run(&codescan.Options{Packages: []string{"./..."}, WorkDir: os.Args[1], ScanModels: true, SetXNullableForPointers: true})
+	if err != nil {
+		fmt.Println("ERR", err)
+		return
+	}
+	b, _ := json.MarshalIndent(sw.Definitions, "", " ")
+	fmt.Println(string(b))
+	full, _ := json.Marshal(sw)
+	sw = new(spec.Swagger)
+	_ = json.Unmarshal(full, sw)
+	for _, doc := range os.Args[2:] {
+		var v interface{}
+		_ = json.Unmarshal([]byte(doc), &v)
+		sch := sw.Definitions["M0"]
+		fmt.Println(doc)
+		_ = spec.Schema{}
+		r := validate.NewSchemaValidator(&sch, sw, "", strfmt.Default).Validate(v)
+		fmt.Println("  with root:", r.Errors)
 	}
 }
